@@ -415,6 +415,55 @@ pub fn check_backend(b: &BackendProgram, case: &dyn Fn(Value) -> Value, stats: &
     Ok(())
 }
 
+/// The two listed lowering panics (F12, F12b) concern matches that are not flat constructor matches: an arm
+/// that is a catch-all next to constructor arms, or a constructor pattern nested inside another constructor,
+/// a tuple or a named field.  The signature of such a panic says whether the source has that shape, so that
+/// the same panic on a flat match (a new defect) is not taken for the listed one.  A pattern that opens a
+/// package — `(W, +K(x))` with an upper-case witness first — counts as flat: the lowering looks through it.
+pub fn lower_signature(p: &PanicInfo, source: &str) -> String {
+    let sig = format!("lower-{}", p.signature());
+    let known = sig.contains("Inrefutable pattern matcher must be unique") || sig.contains("Ctor patterns shou");
+    if !known {
+        return sig;
+    }
+    let toks: Vec<&str> = crate::scan::tokens(source).iter().map(|k| &source[k.start..k.end]).collect();
+    let mut shape = "flat-constructor-arms-only";
+    let mut i = 0;
+    while i < toks.len() {
+        if toks[i] == "|" {
+            // pattern tokens up to the arm's `=>` (skip clauses of comatch, which start with a destructor, and
+            // constructor declarations of `data`, which have `:` before any `=>`)
+            let mut j = i + 1;
+            let mut depth = 0i32;
+            while j < toks.len() && !(depth == 0 && (toks[j] == "=>" || toks[j] == ":" || toks[j] == "|" || toks[j] == "end")) {
+                match toks[j] {
+                    | "(" | "{" => depth += 1,
+                    | ")" | "}" => depth -= 1,
+                    | _ => {}
+                }
+                j += 1;
+            }
+            if j < toks.len() && toks[j] == "=>" && j > i + 1 && !toks[i + 1].starts_with('.') {
+                let pat = &toks[i + 1..j];
+                let is_ctor = |t: &str| t.starts_with('+') && t.len() > 1 && !t[1..].starts_with(|c: char| c.is_ascii_digit());
+                let ctors = pat.iter().filter(|t| is_ctor(t)).count();
+                let catch_all = ctors == 0;
+                // package-flat: ( Upper , <flat ctor pattern> )
+                let package_flat = pat.len() >= 5 && pat[0] == "(" && pat[1].starts_with(|c: char| c.is_ascii_uppercase()) && pat[2] == "," && is_ctor(pat[3]) && ctors == 1;
+                let nested = ctors >= 2 || (ctors == 1 && !is_ctor(pat[0]) && !package_flat);
+                if catch_all || nested {
+                    shape = "catch-all-or-nested-patterns";
+                    break;
+                }
+            }
+            i = j.max(i + 1);
+        } else {
+            i += 1;
+        }
+    }
+    format!("{sig}#{shape}")
+}
+
 pub fn check_generated(ctx: &Ctx, tape: &[u8], cfg: &Cfg, stats: &mut Stats) -> Result<(), Fail> {
     let g = h::generate(tape, cfg);
     let names = Names::unique(&g.prog);
@@ -430,7 +479,7 @@ pub fn check_generated(ctx: &Ctx, tape: &[u8], cfg: &Cfg, stats: &mut Stats) -> 
     };
     stats.eval();
     match drive::lower(exe) {
-        | Lowered::Panic(p) => Err(Fail::new(format!("lower-{}", p.signature()), "lowering to return", p.describe())
+        | Lowered::Panic(p) => Err(Fail::new(lower_signature(&p, &text), "lowering to return", p.describe())
             .with(case(json!({"stage": "lower"})))),
         | Lowered::Refused(why) => {
             stats.count(&format!("refused:{}", why.chars().take(40).collect::<String>()));
@@ -491,7 +540,7 @@ pub fn run(ctx: &Ctx) -> Report {
                 stats.eval();
                 stats.nontrivial(hash_of(text));
                 match drive::lower(exe) {
-                    | Lowered::Panic(p) => Err(Fail::new(format!("lower-{}", p.signature()), "lowering to return", p.describe())
+                    | Lowered::Panic(p) => Err(Fail::new(lower_signature(&p, text), "lowering to return", p.describe())
                         .with(case(json!({"stage": "lower"})))),
                     | Lowered::Refused(_) => Ok(()),
                     | Lowered::Ok(b) => check_backend(&b, &case, stats),
@@ -505,7 +554,7 @@ pub fn run(ctx: &Ctx) -> Report {
     });
     report.absorb(r);
     // text streams: record programs (projections) and pattern-row programs
-    let text_stream = |text: &str, stats: &mut Stats| -> Result<(), Fail> {
+    let text_stream = |text: &str, binder_form: bool, stats: &mut Stats| -> Result<(), Fail> {
         let dir = thread_dir(ctx);
         let (_session, analyzed) = h::write_and_analyze(&dir, text);
         let case = |extra: Value| json!({"source": text[text.find("begin\n").or_else(|| text.rfind("in\n(")).unwrap_or(0)..].to_string(), "info": extra});
@@ -513,7 +562,14 @@ pub fn run(ctx: &Ctx) -> Report {
             stats.eval();
             match drive::lower(exe) {
                 | Lowered::Panic(p) => {
-                    return Err(Fail::new(format!("lower-{}", p.signature()), "lowering to return", p.describe()).with(case(json!({"stage": "lower"}))));
+                    // rows rendered as a fn / let / do / comatch-argument binder: a constructor pattern in a binder is
+                    // the third listed shape the backend does not compile (F12c)
+                    let sig = if binder_form && lower_signature(&p, text).contains('#') {
+                        format!("lower-{}#constructor-pattern-in-a-binder", p.signature())
+                    } else {
+                        lower_signature(&p, text)
+                    };
+                    return Err(Fail::new(sig, "lowering to return", p.describe()).with(case(json!({"stage": "lower"}))));
                 }
                 | Lowered::Refused(_) => stats.count("text:refused"),
                 | Lowered::Ok(b) => {
@@ -527,12 +583,12 @@ pub fn run(ctx: &Ctx) -> Report {
     let cases = ctx.tier.pick(300, 10_000);
     let r = run_tapes(ctx, "records", cases, 60, |tape, stats| {
         let (text, _, _) = crate::props::records::record_program(ctx, tape);
-        text_stream(&text, stats)
+        text_stream(&text, false, stats)
     });
     report.absorb(r);
     let cases = ctx.tier.pick(300, 10_000);
-    let r = run_tapes(ctx, "patterns", cases, 120, |tape, stats| match crate::props::c19::pattern_program(ctx, tape) {
-        | Some(text) => text_stream(&text, stats),
+    let r = run_tapes(ctx, "patterns", cases, 120, |tape, stats| match crate::props::c19::pattern_program_with_form(ctx, tape) {
+        | Some((text, is_match)) => text_stream(&text, !is_match, stats),
         | None => Ok(()),
     });
     report.absorb(r);
@@ -566,7 +622,7 @@ pub fn run(ctx: &Ctx) -> Report {
             stats.eval();
             match drive::lower(exe) {
                 | Lowered::Panic(p) => {
-                    return Err(Fail::new(format!("lower-{}", p.signature()), "lowering to return", p.describe())
+                    return Err(Fail::new(lower_signature(&p, &cur), "lowering to return", p.describe())
                         .with(case(json!({"stage": "lower"}))));
                 }
                 | Lowered::Refused(_) => stats.count("corpus:refused"),
@@ -593,7 +649,7 @@ pub fn replay(ctx: &Ctx, doc: &Value) -> Result<(), Fail> {
         let case = |extra: Value| json!({"source": src, "info": extra});
         if let Analyzed::Executable(exe, _) = analyzed {
             return match drive::lower(exe) {
-                | Lowered::Panic(p) => Err(Fail::new(format!("lower-{}", p.signature()), "lowering to return", p.describe())),
+                | Lowered::Panic(p) => Err(Fail::new(lower_signature(&p, src), "lowering to return", p.describe())),
                 | Lowered::Refused(_) => Ok(()),
                 | Lowered::Ok(b) => check_backend(&b, &case, &mut stats),
             };
